@@ -47,7 +47,7 @@ func init() {
 type fakeCln struct {
 	mu sync.Mutex
 	// per-case configuration
-	decodeMode int             // 0 decode ok, 1 decode errors + decodepay ok, 2 both error, 3 valid=false, 4 other type
+	decodeMode int                    // 0 decode ok, 1 decode errors + decodepay ok, 2 both error, 3 valid=false, 4 other type
 	invoice    map[string]interface{} // fields of the decoded invoice
 	// per-case observation
 	sendpays []map[string]json.RawMessage
@@ -582,5 +582,5 @@ func runC24(args []string) error {
 				"destination": dest, "num_satoshis": sat, "cltv_expiry": cltv, "channels": jc, "payreq": payreq, "scid": scid, "limit": limit,
 				"request": jsLndReq(q), "send_calls": len(fr.sent), "err": perr != nil})
 	}
-	return cf.Write(*out, 200, map[string]interface{}{"seed": *seed})
+	return cf.Write(*out, 400, map[string]interface{}{"seed": *seed})
 }
